@@ -11,6 +11,14 @@ def prepare(ctx, translators=('gen_accessors',)):
     return st, json.load(open(os.path.join(C.BUILD, 'accessors.json')))
 
 
+def env_dependent(view_line):
+    """a top-level IPv4 layer whose source address is 0.0.0.0: serialize() replaces it by the address of the interface that
+    routes to the destination (prepare_for_serialize), which depends on the machine (and throws invalid_interface without a
+    route) - such packets are not judged on what serialize() does"""
+    first = view_line[2:].split(' | ')[0] if view_line[:2] in ('P ', 'Q ') else ''
+    return first.startswith('IP ') and ' src_addr=x00000000 ' in first + ' '
+
+
 def corpus(rng, n):
     """valid packets: built through the API and serialised by libtins; returns list of (entry_class, bytes, meta, build_lines)"""
     scripts, metas = [], {}
